@@ -191,6 +191,8 @@ typedef struct {
     int bos; int dplace; int viol;            /* viol: 0 none, else constraint scenario id */
     int dnull, snull, onull;
     int dobj_full;  /* object holds the complete string although dmax is smaller */
+    int salias;     /* src is the very same pointer as dest */
+    int dobj_short; /* known object of dl(+1) elements although dmax is larger (length functions: 'at most the first smax or sizeof(str) characters are accessed') */
 } qscn;
 
 static void put(void *p, size_t i, int ew, uint32_t v) { if (ew == 1) ((uint8_t *)p)[i] = (uint8_t)v; else if (ew == 2) ((uint16_t *)p)[i] = (uint16_t)v; else ((uint32_t *)p)[i] = v; }
@@ -221,6 +223,7 @@ static void run_case(const qdesc *q, qscn *s, long idx) {
     /* --- materialise operands: dest in slot 0 (end- or begin-flush), src in slot 1 end-flush, out in slot 2 */
     size_t dobj_el = s->dmax ? s->dmax : 1, sobj_el;
     if (s->dobj_full) dobj_el = s->dl + 1;               /* dmax below the string length: the whole terminated string is in the object */
+    if (s->dobj_short) dobj_el = s->dl + (s->dterm ? 1 : 0);
     if (s->viol == 3) dobj_el = 4;                       /* dmax above the limit: operand of 4 elements, see below */
     uint8_t *dobj = s->dplace ? place_begin(0) : place_end(0, dobj_el * ew);
     memset(dobj - (s->dplace ? 0 : 32), CANARY, s->dplace ? 0 : 32);
@@ -234,11 +237,12 @@ static void run_case(const qdesc *q, qscn *s, long idx) {
         sobj_b = sobj_el * ew; sobj = place_end(1, sobj_b);
         memset(sobj - 32, CANARY, 32);
         for (size_t i = 0; i < sobj_el; i++) put(sobj, i, ew, i < s->sl ? s->s[i] : (i == s->sl && s->sterm && !(q->fl & QF_MEM)) ? 0 : 0x75 + (uint32_t)(i % 3));
+        if (s->salias) { sobj = dobj; sobj_b = dobj_el * ew; }
     }
     void *out = place_end(2, outsz); memset((uint8_t *)out - 32, CANARY, 32); memset(out, 0x5a, outsz);
     Q.dest = s->dnull ? NULL : dobj; Q.dmax = s->dmax; Q.destbos = s->bos ? dobj_el * ew : BOS_UNKNOWN;
     if (s->viol == 3) { Q.dmax = q->limit + 1; Q.dest = s->bos ? (void *)dobj : (void *)(slot_end(0) + 128); }   /* unknown size: operand in unmapped memory */
-    Q.src = s->snull ? NULL : sobj; Q.slen = s->slen; Q.srcbos = (s->bos && (q->fl & QF_SRCBOS)) ? sobj_b : BOS_UNKNOWN;
+    Q.src = s->snull ? NULL : s->salias ? Q.dest : (void *)sobj; Q.slen = s->slen; Q.srcbos = (s->bos && (q->fl & QF_SRCBOS)) ? sobj_b : BOS_UNKNOWN;
     Q.count = s->count; Q.ch = s->ch; Q.fold = s->fold; Q.out = s->onull ? NULL : out;
     Q.ret = -999;
     probes_reset();
@@ -276,10 +280,10 @@ static void run_case(const qdesc *q, qscn *s, long idx) {
     {
         int changed = 0; const char *wh = "";
         for (size_t i = 0; i < dobj_el && !changed; i++) { uint32_t w = i < s->dl ? s->d[i] : (i == s->dl && s->dterm) ? 0 : 0x71 + (uint32_t)(i % 5); if (get(dobj, i, ew) != w) { changed = 1; wh = "dest"; } }
-        if (!changed && sobj) for (size_t i = 0; i < sobj_b / ew && !changed; i++) { uint32_t w = i < s->sl ? s->s[i] : (i == s->sl && s->sterm && !(q->fl & QF_MEM)) ? 0 : 0x75 + (uint32_t)(i % 3); if (get(sobj, i, ew) != w) { changed = 1; wh = "src"; } }
+        if (!changed && sobj && !s->salias) for (size_t i = 0; i < sobj_b / ew && !changed; i++) { uint32_t w = i < s->sl ? s->s[i] : (i == s->sl && s->sterm && !(q->fl & QF_MEM)) ? 0 : 0x75 + (uint32_t)(i % 3); if (get(sobj, i, ew) != w) { changed = 1; wh = "src"; } }
         if (!changed) { const uint8_t *c = (uint8_t *)out - 32; for (int i = 0; i < 32; i++) if (c[i] != CANARY) { changed = 1; wh = "before-out-param"; } }
         if (!changed && !s->dplace) { const uint8_t *c = dobj - 32; for (int i = 0; i < 32; i++) if (c[i] != CANARY) { changed = 1; wh = "before-dest"; } }
-        if (!changed && sobj) { const uint8_t *c = sobj - 32; for (int i = 0; i < 32; i++) if (c[i] != CANARY) { changed = 1; wh = "before-src"; } }
+        if (!changed && sobj && !s->salias) { const uint8_t *c = sobj - 32; for (int i = 0; i < 32; i++) if (c[i] != CANARY) { changed = 1; wh = "before-src"; } }
         g_changed_where = changed ? wh : NULL;
     }
     /* ---- classify */
@@ -459,6 +463,17 @@ static void gen(int qi) {
             }
         }
     }
+    /* pass E: the length functions with smax above the size of a known object that ends at the fence: "at most the first smax or
+       sizeof(str) characters of str are accessed"; the answer is the object's element count when no terminator is inside it */
+    if (q->rk == RK_LEN) {
+        int ns = (q->fl & QF_WIDE) ? 6 : 10;
+        for (size_t dl = 1; dl <= (g_tier ? 40 : 24); dl++) for (int k = 0; k < 5; k++) for (int dt = 0; dt < 2; dt++) {
+            static const size_t extra[] = {1, 2, 8, 64, 4000};
+            memset(&s, 0, sizeof s); s.dl = dl; if (dl > 38) continue; str_from(s.d, dl, dl * 7 + k, ns, al);
+            s.dterm = dt; s.dmax = dl + dt + extra[k]; if (s.dmax > q->limit) s.dmax = q->limit; s.dobj_short = 1; s.sterm = 1; s.bos = 1;
+            long idx = g_idx++; if (!pick(idx)) continue; g_shm->cur = idx; run_case(q, &s, idx);
+        }
+    }
     /* pass D: longer haystacks with repeated partial matches for the two-operand searches */
     if (two && !(q->fl & QF_MEM) && (q->rk == RK_PTR || q->rk == RK_COUNT || q->rk == RK_STATUS)) {
         size_t hl = g_tier ? 9 : 6;
@@ -482,7 +497,13 @@ static void gen(int qi) {
         s.ch = chv ? 256 + 'a' : 'a'; s.count = 2;
         if (q->fl & QF_MEM) { s.dterm = 0; s.dl = 3; s.d[2] = 'c'; s.sl = 2; s.s[1] = 'c'; s.sterm = 0; if (!(q->fl & QF_SLEN)) { s.sl = 3; s.s[2] = 'c'; } }
         if (dm == 0) { s.dmax = 0; }
-        long idx = g_idx++; if (!pick(idx)) continue; g_shm->cur = idx; run_case(q, &s, idx);
+        long idx = g_idx++; if (pick(idx)) { g_shm->cur = idx; run_case(q, &s, idx); }
+        /* the same scenario with src being the very pointer passed as dest: a same-object shortcut must not come before the checks */
+        if ((q->fl & QF_SRC) && !dnull && !snull) {
+            qscn a = s; a.salias = 1; a.sl = a.dl; memcpy(a.s, a.d, sizeof a.s); a.sterm = a.dterm;
+            if ((q->fl & QF_SLEN) && sl == 0 && !(q->fl & QF_MEM)) a.slen = a.dl + 1;
+            idx = g_idx++; if (!pick(idx)) continue; g_shm->cur = idx; run_case(q, &a, idx);
+        }
     }
 }
 
